@@ -3,7 +3,9 @@
 PAR_ENV = {"EGGLOG_PARALLEL_INTER_CONTAINER_CUTOFF": "0", "EGGLOG_PARALLEL_INTRA_CONTAINER_CUTOFF": "0"}
 
 CFG = {
-    "tier_a": ["UFSeq", "MergeArms"],
+    "tier_a": ["UFSeq", "MergeArms", "BridgeFns", "ContFacts.merge", "ContFacts.strategy", "ContFacts.insert_owned",
+               "ContFacts.reinsert_inc", "ContFacts.inc_scan", "ContFacts.nonincr", "ContFacts.nonincr_par",
+               "ContFacts.closure", "ContFacts.bridge_loop", "ContFacts.refresh"],
     "model_targets": ["Cont/Env.vo", "Egg/Rules.vo"],
     "proof_targets": ["Props/C14.vo"],
     "harness": [
@@ -23,8 +25,15 @@ CFG = {
     ],
     "corr_is_violation": True,
     "trusted": [
-        "translator /verif/translator: gen/UFSeq.v (union-find, representative = least id) and gen/MergeArms.v "
-        "(merge_unionid = min; the container merge closure of register_container_ty has the same body)",
+        "translator /verif/translator: gen/UFSeq.v (union-find, representative = least id), gen/MergeArms.v, gen/BridgeFns.v "
+        "(incremental_rebuild) and gen/ContFacts.v (x_cont.rs): the merge closure of register_container_ty (cont_merge / "
+        "cont_merge_staged), the strategy call of ContainerEnv::apply_rebuild, insert_owned's occupied/vacant arms as effect "
+        "lists with guard and merge arguments, the conditions of reinsert_incremental, the queue of apply_rebuild_incremental, "
+        "the scan arms and reinsertion loop of apply_rebuild_nonincremental and of its parallel variant, rebuild_all + "
+        "expand_dirty_id_closure's loop shape, the step order and break test of EGraph::rebuild's loop, and the per-row "
+        "statements of refresh_rows_for_values; each item fails closed",
+        "coq/Cont/Gen.v: the interpretation of the effect vocabulary (to_container remove/insert, to_id entry set/insert, "
+        "val_index loop over iter()) on the three finite maps, and the assembly of the regenerated facts into functions",
         "hand-written Gallina model coq/Cont/Env.v of core-relations/src/containers/mod.rs and of "
         "rebuild_contents/iter of src/sort/{vec,set,multiset,pair,map}.rs, tied to the engine by the "
         "correspondence cases (h_cont, serial and 4 threads) and by the seeded mutations",
@@ -36,12 +45,12 @@ CFG = {
                       "every live container id is a union-find root (hence suspect S3's branch is dead; witness that the "
                       "branch would break val_index otherwise); the rebuild loop terminates within the stated fuel; at the "
                       "fixpoint every stored id is canonical and containers equal after canonicalisation share one id; "
-                      "after one pass (either strategy) every container is filed under its canonicalised contents with an id in the class of its old id, so containers equal modulo the current equalities end in one class; every container changed in place is in the dirty set, which is closed under containment",
-    "link_only": "that the model is the code (correspondence cases: container histories under full / incremental / "
+                      "after one pass (either strategy) every container is filed under its canonicalised contents with an id in the class of its old id, so containers equal modulo the current equalities end in one class; every container changed in place is in the dirty set, which is closed under containment; TIER A (c14_model_is_regenerated): insert_owned, pass_full, pass_inc and dirty_closure of the hand model are EQUAL for all inputs to the functions assembled from gen/ContFacts.v (so min->max, a dropped to_container/val_index update in the collision arm, a changed dirty test, a one-level closure break a pinned theorem); c14_merge_keeps_min; c14_regenerated_loop_canonical: the loop over the regenerated passes with a state-dependent strategy (incl. the translated threshold real_strategy) terminates and is canonical; c14_parallel_same_decisions: the parallel non-incremental variant takes the same decisions as the serial one; c14_refresh_restamps: after one pass of the bridge loop (containers, tables, refresh) every row is the old row canonicalised, rows whose columns changed and rows mentioning a container whose meaning changed in place AT ANY NESTING DEPTH (deep_changed) carry next_ts; c14_bridge_pass_order pins the regenerated step order / break test / refresh facts",
+    "link_only": "that the interpretation of the effect vocabulary and of rebuild_contents/iter per sort is the code (correspondence cases: container histories under full / incremental / "
                  "alternating strategies vs the engine, serial and parallel); rows keyed by containers merge (table "
-                 "rebuild; predicate (b) on dumps + harness closure + (check (= e1 e2))); refresh_rows_for_values re-stamps "
-                 "the rows mentioning dirty ids and semi-naive = naive after every command (lockstep engines, 26 rule "
-                 "templates); parallel get_or_insert races; which strategy the engine picks (threshold) is observed only "
+                 "rebuild; predicate (b) on dumps + harness closure + (check (= e1 e2))); the merge of table rows whose keys collide after canonicalisation and the rebuild index that finds the candidate rows (the per-row effect of refresh is now proved: c14_refresh_restamps); "
+                 "semi-naive = naive after every command (lockstep engines, 26 rule "
+                 "templates); parallel get_or_insert races; which strategy the engine picks is regenerated (cont_strategy_incremental over incremental_rebuild) but the theorems hold for every strategy; on the engine it is observed only "
                  "through the Big sessions (incl. fixed two-step union chains per kind and interning order) and the inc_no_val_index / rt_c14 mutations; Map key collisions excluded by the generator",
     "assumptions": [
         "ids are unbounded nat; hash buckets are modelled by a perfect hash (locator = contents at filing time)",
